@@ -3,6 +3,7 @@ package props
 // C02 — entity handles: alive until removed, never alive again, never shared.
 
 import (
+	"strings"
 	"testing"
 
 	"verifharness/core"
@@ -15,12 +16,21 @@ func TestC02(t *testing.T) {
 		ID: "C02",
 		Cfg: core.SimConfig{
 			Prop:   "C02",
-			Owned:  core.Own(core.CatHandles, core.CatInvPool, core.CatInvIndex, core.CatPanicCreate, core.CatObserve, core.CatScan),
+			Owned:  core.Own(core.CatHandles, core.CatInvPool, core.CatInvIndex, core.CatPanicCreate, core.CatObserve, core.CatScan, core.CatCorrupt),
 			Verify: core.VerifyOpts{Values: false, Relations: false, Scan: true, Hooks: true, Dead: true},
 			// the query returned by NewBatchQ is a creation call's way of returning handles: what it
 			// reports through Next/Entity and EntityAt(i) must be the new handles
 			OwnedIf: func(s *core.Sim, f *core.Finding) bool {
-				return f.Cat == core.CatBatchQuery && len(s.Ops) > 0 && s.Ops[len(s.Ops)-1].K == core.OpBuildBatch
+				if len(s.Ops) == 0 {
+					return false
+				}
+				last := s.Ops[len(s.Ops)-1].K
+				if f.Cat == core.CatBatchQuery && last == core.OpBuildBatch {
+					return true
+				}
+				// a creation call that was refused (it panicked) has created nothing
+				creation := last == core.OpNew || last == core.OpNewWith || last == core.OpBuildNew || last == core.OpBuildBatch
+				return f.Cat == core.CatIllegal && creation && strings.Contains(f.Msg, "rejected call changed")
 			},
 		},
 		Once: func(t *testing.T, st *core.Stats) {
@@ -40,8 +50,13 @@ func TestC02(t *testing.T) {
 		},
 		Lim:      core.Limits{MaxAlive: 330, MaxTotal: 1200, MaxBatch: 7, MaxSlots: 2},
 		MaxPlain: 3, MaxRel: 1,
-		Setup: func(rt *rapid.T, sim *core.Sim, g *core.Gen) { g.BigBatch = true },
-		Rule:  "histories of single and batch creations (counts 1-7, 10% up to 300), single removals, RemoveEntities(filter), Reset, DumpEntities+Reset+LoadEntities, and DumpEntities ... further history ... Reset+LoadEntities of the earlier dump (the entity state must be the one of dump time); after EVERY op: Alive of every handle issued since the last reset equals the model, new handles are non-zero and were never issued before, no two alive handles share an id, zero entity dead, Stats.Used == creations-removals, Query(All()) yields exactly the alive set, entity-pool free-list invariant; non-trivial = some id was recycled at least twice (generation >= 2) and a batch creation received recycled and fresh ids together",
+		Setup: func(rt *rapid.T, sim *core.Sim, g *core.Gen) {
+			g.BigBatch = true
+			// now and then a creation call with illegal arguments: refused, and nothing is created
+			g.Illegal = []string{core.IllCount, core.IllDeadTarget, core.IllRelMissing, core.IllRelNotRel, core.IllNoBuilderRel}
+			g.IllegalPct = 4
+		},
+		Rule: "histories of single and batch creations (counts 1-7, 10% up to 300), single removals, RemoveEntities(filter), Reset, DumpEntities+Reset+LoadEntities, and DumpEntities ... further history ... Reset+LoadEntities of the earlier dump (the entity state must be the one of dump time); after EVERY op: Alive of every handle issued since the last reset equals the model, new handles are non-zero and were never issued before, no two alive handles share an id, zero entity dead, Stats.Used == creations-removals, Query(All()) yields exactly the alive set, entity-pool free-list invariant; non-trivial = some id was recycled at least twice (generation >= 2) and a batch creation received recycled and fresh ids together",
 		Observe: func(tr *tracker, op *core.Op) {
 			b := tr.sim.B
 			maxGen := uint32(0)
